@@ -475,6 +475,35 @@ def r11_7(ctx, rep):
     rep.ob(R, site, "exclusive bound one unit past stop", ok, why)
 
 
+@SPEC.rule(
+    "R11.8",
+    "a translated function is cached under the name it is looked up by: in Generator.get_function the membership test, the "
+    "read and the store on self.functions use one and the same key, and it is the key that selects the class in "
+    "self.root.classes (the fully qualified name) — a coarser key (the class's short name, the CasADi function's name) makes "
+    "P1.f and P2.f share one translation and the second call silently evaluates the first function's body",
+)
+def r11_8(ctx, rep):
+    from ..pyutil import inlined
+    R = "R11.8"
+    fn = ctx.func(GEN, "Generator.get_function", R)
+    site = GEN + ":Generator.get_function"
+    keys = []
+    for n in ast.walk(fn):
+        if isinstance(n, ast.Subscript) and norm(n.value) == "self.functions":
+            keys.append(("store" if isinstance(n.ctx, ast.Store) else "read", norm(inlined(n.slice, fn.body))))
+        elif isinstance(n, ast.Compare) and len(n.ops) == 1 and isinstance(n.ops[0], (ast.In, ast.NotIn)) and norm(n.comparators[0]) == "self.functions":
+            keys.append(("test", norm(inlined(n.left, fn.body))))
+    src = [norm(inlined(n.slice, fn.body)) for n in ast.walk(fn) if isinstance(n, ast.Subscript) and norm(n.value) == "self.root.classes"]
+    if not keys or not src:
+        raise MechanismMissing(R, "get_function no longer caches in self.functions / looks the class up in self.root.classes")
+    kinds = {k for k, _ in keys}
+    rep.ob(R, site, "cache is tested, read and stored", {"store"} <= kinds and ({"test"} <= kinds or {"read"} <= kinds), "found only %s on self.functions" % sorted(kinds))
+    distinct = sorted({t for _, t in keys})
+    rep.ob(R, site, "one key for test, read and store", len(distinct) == 1 and distinct[0] in src,
+           "self.functions is accessed with the keys %s while the class is selected by %s: two functions that differ only in their package "
+           "share one cache entry" % (distinct, src))
+
+
 # -- seeded variants ---------------------------------------------------------
 from ._mut import replace_in_func  # noqa: E402
 
@@ -583,3 +612,16 @@ def _m_bound(mod):
         return False
 
     return mod if replace_in_func(mod, "ForLoop.__init__", edit) else None
+
+
+@SPEC.mutant("function cache keyed by the short name", GEN, "R11.8", "one key")
+def _m_fcache(mod):
+    def edit(fn):
+        done = False
+        for n in ast.walk(fn):
+            if isinstance(n, ast.Subscript) and norm(n.value) == "self.functions" and isinstance(n.ctx, ast.Store):
+                n.slice = ast.parse("func.name()", mode="eval").body
+                done = True
+        return done
+
+    return mod if replace_in_func(mod, "Generator.get_function", edit) else None
